@@ -850,6 +850,11 @@ def run_programs(ck, progs, what="emitted state machine and coroutine semantics 
             rep.update(info)
             if status == "cex":
                 ck.violation({"program": json.dumps(prog)}, what, rep)
+            elif status == "fuel":
+                # state space of a generated program above the exploration budget, no difference found by the breadth-first
+                # search within its budget: undecided for lack of resources, withdrawn (see explore.run_cases)
+                ck.obligations -= 1
+                ck.cov.setdefault("undecided_state_space_above_budget", []).append(json.dumps(prog))
             else:
                 ck.violation({"program": json.dumps(prog)},
                              "case obligation not discharged (%s)" % status, rep, no_input=True)
